@@ -1,0 +1,71 @@
+//go:build verif
+
+package storage
+
+import (
+	"context"
+
+	"github.com/eko/gocache/lib/v4/cache"
+	"github.com/eko/gocache/lib/v4/store"
+	"github.com/nuts-foundation/nuts-node/core/verifhook"
+)
+
+// VerifInstrumentSessionDatabase puts, for the verification harness, a decorator between the session stores of the
+// in-memory session database and its backend (the go-cache store), so that the harness can let a backend operation fail the
+// way an operation on a remote backend (Redis, memcached) can fail. Every backend operation passes two fault points, with
+// the full key as argument:
+//
+//	sessiondb.<op>      before the operation; an injected error is returned INSTEAD of performing the operation (request lost)
+//	sessiondb.<op>.ack  after the operation; an injected error is returned ALTHOUGH the operation took effect (reply lost)
+//
+// with <op> one of get, set, delete. Without an installed verifhook handler the decorator is transparent.
+// Must be called before the database is in use; it is idempotent. Returns false if db is not the in-memory database.
+func VerifInstrumentSessionDatabase(db SessionDatabase) bool {
+	mem, ok := db.(*InMemorySessionDatabase)
+	if !ok {
+		return false
+	}
+	backend := mem.underlying.GetCodec().GetStore()
+	if _, done := backend.(*verifFaultStore); done {
+		return true
+	}
+	mem.underlying = cache.New[[]byte](&verifFaultStore{StoreInterface: backend})
+	return true
+}
+
+type verifFaultStore struct {
+	store.StoreInterface
+}
+
+func (s *verifFaultStore) Get(ctx context.Context, key any) (any, error) {
+	if err := verifhook.Fault("sessiondb.get", key); err != nil {
+		return nil, err
+	}
+	value, err := s.StoreInterface.Get(ctx, key)
+	if ferr := verifhook.Fault("sessiondb.get.ack", key); ferr != nil {
+		return nil, ferr
+	}
+	return value, err
+}
+
+func (s *verifFaultStore) Set(ctx context.Context, key any, value any, options ...store.Option) error {
+	if err := verifhook.Fault("sessiondb.set", key); err != nil {
+		return err
+	}
+	err := s.StoreInterface.Set(ctx, key, value, options...)
+	if ferr := verifhook.Fault("sessiondb.set.ack", key); ferr != nil {
+		return ferr
+	}
+	return err
+}
+
+func (s *verifFaultStore) Delete(ctx context.Context, key any) error {
+	if err := verifhook.Fault("sessiondb.delete", key); err != nil {
+		return err
+	}
+	err := s.StoreInterface.Delete(ctx, key)
+	if ferr := verifhook.Fault("sessiondb.delete.ack", key); ferr != nil {
+		return ferr
+	}
+	return err
+}
